@@ -9,3 +9,7 @@ open FormulaeModel
 #print axioms C04.C04_indicator_reduced
 #print axioms Bridge.design_treatmentReduced
 #print axioms Bridge.design_treatment_basis
+#print axioms C04.C04_trainComp_labels_partial
+#print axioms C04.C04_trainTerm_labels_partial
+#print axioms C04.C04_trainGroup_labels_partial
+#print axioms C04.C04_design_labels_partial
